@@ -183,15 +183,16 @@ def check_concrete(contract, args, observe_unchanged=True):
     import copy
     a = NS(dict(args))
     before = {k: S.cells(v) for k, v in args.items() if hasattr(v, "chunks")}
-    before_items = {(k, i): (x, S.cells(x)) for k, v in args.items() if isinstance(v, (list, tuple))
+    before_items = {(k, i): (x, S.cells(x), len(x.chunks)) for k, v in args.items() if isinstance(v, (list, tuple))
                     for i, x in enumerate(v) if hasattr(x, "chunks")}
     oc = run_concrete(contract, args)
     for k, b in before.items():
         if S.cells(args[k]) != b:
             return False, "frame", f"argument {k} changed: {str(b)[:300]} -> {str(S.cells(args[k]))[:300]}"
-    for (k, i), (x, b) in before_items.items():
-        if len(x.chunks) > 4 * len(b) + 8 or S.cells(x) != b:
-            return False, "frame", f"item {i} of argument {k} changed: {str(b)[:300]} -> {len(x.chunks)} runs"
+    for (k, i), (x, b, nruns) in before_items.items():
+        # (run count first: an operand whose run list is being extended in place may have grown too large to compare cell by cell)
+        if len(x.chunks) != nruns or S.cells(x) != b:
+            return False, "frame", f"item {i} of argument {k} changed: {nruns} runs {str(b)[:300]} -> {len(x.chunks)} runs"
     must = [e for e, c in contract.raises.items() if c(a) is True or (not isinstance(c(a), bool) and False)]
     if oc[0] == "raise":
         if oc[1] in contract.raises:
